@@ -89,6 +89,14 @@ func Mix(seed uint64, d time.Duration) []string {
 			e.Svc.Data().ReadRows(&btpb.ReadRowsRequest{TableName: btBig}, &readStream{fake: fake{ctx}, failAt: 2})
 			e.Svc.Data().MutateRow(ctx, &btpb.MutateRowRequest{TableName: btBig, RowKey: []byte("w"), Mutations: []*btpb.Mutation{{Mutation: &btpb.Mutation_SetCell_{SetCell: &btpb.Mutation_SetCell{FamilyName: "f", TimestampMicros: 1000, Value: []byte("v")}}}}})
 		})
+		spawn("ReadRows with a regex filter", seed+14, func(r *core.Rng) {
+			e.Svc.Data().ReadRows(&btpb.ReadRowsRequest{TableName: btTable, Filter: &btpb.RowFilter{Filter: &btpb.RowFilter_ValueRegexFilter{ValueRegexFilter: []byte(core.Pick(r, []string{"v.*", ".*", "[a-z]+"}))}}}, &readStream{fake: fake{ctx}})
+		})
+		spawn("CheckAndMutateRow with a pattern never seen before", seed+15, func(r *core.Rng) {
+			pat := fmt.Sprintf("r%d.*", r.Intn(1<<30))
+			e.Svc.Data().CheckAndMutateRow(ctx, &btpb.CheckAndMutateRowRequest{TableName: btTable, RowKey: []byte("r2"),
+				PredicateFilter: &btpb.RowFilter{Filter: &btpb.RowFilter_RowKeyRegexFilter{RowKeyRegexFilter: []byte(pat)}}})
+		})
 		spawn("ReadRows/ListTables", seed+4, func(r *core.Rng) {
 			e.Svc.Data().ReadRows(&btpb.ReadRowsRequest{TableName: core.Pick(r, []string{btTable, "p/tables/tmp"})}, &readStream{fake: fake{ctx}})
 			l, err := e.Svc.Admin().ListTables(ctx, &btapb.ListTablesRequest{Parent: "p"})
